@@ -130,14 +130,24 @@ StrOrEmpty(a) == Len(a.items) = 0 \/ (Len(a.items) = 1 /\ Kind1(a) = "s")
 StrOf(a) == IF Len(a.items) = 0 THEN <<>> ELSE a.items[1].cp
 Concat(a, b) == IF StrOrEmpty(a) /\ StrOrEmpty(b) THEN V(<<S(StrOf(a) \o StrOf(b))>>) ELSE NA
 
+RECURSIVE LexLess(_, _)
+LexLess(u, v) ==      \* strict lexicographic order on code-point sequences
+  IF Len(v) = 0 THEN FALSE
+  ELSE IF Len(u) = 0 THEN TRUE
+  ELSE IF Head(u) # Head(v) THEN Head(u) < Head(v)
+  ELSE LexLess(Tail(u), Tail(v))
+
+Cmp(op, lt, eq) == CASE op = "<" -> lt [] op = "<=" -> lt \/ eq [] op = ">" -> ~lt /\ ~eq [] op = ">=" -> ~lt
+
 Ineq(op, a, b) ==
-  IF ~AtMostOne(a) \/ ~AtMostOne(b) THEN NA
-  ELSE IF Len(a.items) = 0 \/ Len(b.items) = 0
-       THEN (IF (Len(a.items) = 0 \/ IsNum(a.items[1])) /\ (Len(b.items) = 0 \/ IsNum(b.items[1])) THEN V(<<>>) ELSE NA)
-  ELSE IF ~IsNum(a.items[1]) \/ ~IsNum(b.items[1]) THEN NA
-  ELSE LET x == a.items[1].i
-           y == b.items[1].i
-       IN V(<<B(CASE op = "<" -> x < y [] op = "<=" -> x <= y [] op = ">" -> x > y [] op = ">=" -> x >= y)>>)
+  LET Ord(x) == Len(x.items) = 0 \/ IsNum(x.items[1]) \/ (x.items[1].t = "s" /\ ~x.fhir)
+  IN IF ~AtMostOne(a) \/ ~AtMostOne(b) \/ ~Ord(a) \/ ~Ord(b) THEN NA
+     ELSE IF Len(a.items) = 0 \/ Len(b.items) = 0 THEN V(<<>>)
+     ELSE IF IsNum(a.items[1]) /\ IsNum(b.items[1])
+          THEN V(<<B(Cmp(op, a.items[1].i < b.items[1].i, a.items[1].i = b.items[1].i))>>)
+     ELSE IF Kind1(a) = "s" /\ Kind1(b) = "s"
+          THEN V(<<B(Cmp(op, LexLess(a.items[1].cp, b.items[1].cp), a.items[1].cp = b.items[1].cp))>>)
+     ELSE NA
 
 Scalar(a) == Len(a.items) = 1 /\ Kind1(a) \in {"b", "i", "di", "s"}
 SameScalar(x, y) == IF IsNum(x) /\ IsNum(y) THEN x.i = y.i
